@@ -130,12 +130,11 @@ func TestEscapers(t *testing.T) {
 				t.Fatalf("HasSuffix(%q,%q)", s, sub)
 			}
 		}
-		func() {
-			defer func() { recover() }() // inputs outside the model's stated domain panic
-			if a, b := strings.TrimSpace(s), verifModel_strings_TrimSpace(s); a != b {
-				t.Fatalf("TrimSpace(%q): %q vs %q", s, a, b)
+		for _, w := range []string{s, " " + s + "\u00a0", "\u2003" + s + "\n", s + "\u0085 \u3000"} {
+			if a, b := strings.TrimSpace(w), verifModel_strings_TrimSpace(w); a != b {
+				t.Fatalf("TrimSpace(%q): %q vs %q", w, a, b)
 			}
-		}()
+		}
 	}
 }
 
